@@ -7,10 +7,13 @@ C19 - devices see the same program memory under every engine.
     model: reads return the current word (0 if never written), writes are masked and visible to the next read;
     InMemoryScreen._update_rectangle: every pixel index it touches is inside the frame buffer (no IndexError)
     and the box test rejects exactly the rectangles leaving the screen; command framing lengths.
+    _fjcore Memory_get_word / Memory_set_word (cvc, from any state satisfying Rep): an in-segment address is routed
+    to the storage the run loops use (get returns absM[a]; set makes absM[a] = value & mask and changes no other
+    word), the device view (page-backed outside the segments) is the same in every storage mode, Rep is preserved;
+    NativeDeviceMemory.read_word/write_word are exactly one such call with the masked value.
 [B] programs interleaving ops with device reads/writes (words and packed bytes) at in-segment addresses on every
     engine and storage mode (bounded/devmem.py); random valid and malformed screen command streams against an
-    independent decoder.  The native accessors Memory_get_word / Memory_set_word are bounded-only here (their
-    routing relies on Rep, C07).
+    independent decoder.
 """
 from __future__ import annotations
 
@@ -132,6 +135,144 @@ def unit_reader_adapter(w: int) -> Dict[str, Any]:
         extra.append(Obl(f'{tag}.never_raises', list(s.pc), z3.BoolVal(sig[0] == 'return')))
         extra.append(Obl(f'{tag}.stores_the_masked_value_at_the_masked_address_only', list(s.pc), z3.And(z3.Select(m1.dom, a & mask), z3.ZeroExt(N - w, z3.Select(m1.val, a & mask)) == (v & mask), z3.ForAll([x], z3.Implies(x != (a & mask), z3.And(z3.Select(m1.dom, x) == z3.Select(m0.dom, x), z3.Select(m1.val, x) == z3.Select(m0.val, x)))))))
     return finish_unit(eng, extra)
+
+
+def unit_native_adapter(w: int) -> Dict[str, Any]:
+    """NativeDeviceMemory: read_word(a) is exactly ONE core.get_word(a); write_word(a, v) is exactly ONE
+    core.set_word(a, v & (2^w - 1)) - with the accessor contracts (unit_native_accessor) the device sees and
+    changes the program-visible word."""
+    DM, SC, X = _mods()
+    eng = Engine(IntBV(N), name=f'NativeDeviceMemory[w{w}]')
+    T = eng.T
+    st = State()
+
+    class Core:  # stands for _fjcore.Memory: its two methods are the contracts proved in unit_native_accessor
+        pass
+
+    calls_key = 'core_calls'
+    got = z3.BitVec('core_word', N)
+    T.note(got, w, True)
+
+    def get_word(e, s0, recv, args, kwargs):
+        s = s0.fork()
+        s.ghost[calls_key] = s.ghost.get(calls_key, ()) + (('get', args[0]),)
+        yield (OK, s, got)
+
+    def set_word(e, s0, recv, args, kwargs):
+        s = s0.fork()
+        s.ghost[calls_key] = s.ghost.get(calls_key, ()) + (('set', args[0], args[1]),)
+        yield (OK, s, None)
+
+    eng.method_handlers[('Obj', 'get_word')] = get_word
+    eng.method_handlers[('Obj', 'set_word')] = set_word
+    core = st.alloc(Obj(Core, {}))
+    ref = st.alloc(Obj(DM.NativeDeviceMemory, dict(_core_memory=core, memory_width=w)))
+    a = eng.fresh_int('word_address', st, 0, 1 << 64)
+    v = eng.fresh_int('value', st, 0, 1 << 70)
+    extra: List[Obl] = []
+    for i, (s, sig) in enumerate(eng.run_function(DM.NativeDeviceMemory.read_word, st, [ref, a])):
+        tag = f'{eng.name}:read_word.path{i}'
+        calls = s.ghost.get(calls_key, ())
+        shape = sig[0] == 'return' and len(calls) == 1 and calls[0][0] == 'get'
+        extra.append(Obl(f'{tag}.is_one_get_word_of_that_address', list(s.pc), z3.And(T.lift(calls[0][1]) == a, T.lift(sig[1]) == got) if shape else z3.BoolVal(False)))
+    for i, (s, sig) in enumerate(eng.run_function(DM.NativeDeviceMemory.write_word, st, [ref, a, v])):
+        tag = f'{eng.name}:write_word.path{i}'
+        calls = s.ghost.get(calls_key, ())
+        shape = sig[0] == 'return' and len(calls) == 1 and calls[0][0] == 'set'
+        extra.append(Obl(f'{tag}.is_one_set_word_of_the_masked_value', list(s.pc), z3.And(T.lift(calls[0][1]) == a, T.lift(calls[0][2]) == (v & bv((1 << w) - 1))) if shape else z3.BoolVal(False)))
+    return finish_unit(eng, extra)
+
+
+def unit_native_accessor(name: str, w: int, flat: Optional[bool]) -> Dict[str, Any]:
+    """_fjcore Memory_get_word / Memory_set_word (what NativeDeviceMemory calls), from any state satisfying Rep:
+    an address INSIDE the loaded segments is routed to the same storage the run loops use - get returns absM[a],
+    set makes absM' = absM[a := value & mask] and changes no other abstract word - and Rep is preserved for every
+    address (in or out of the segments), so a device access can never corrupt what the program reads next."""
+    from contracts.c.fjcore import PAGE_BITS, NativeModel, i32, u64
+    from props.C01c import _Unit
+    from vc.cvc.cfg import Linear, load_functions
+    from vc.cvc.exec import NULL, CExec, Ptr
+
+    fns = load_functions()
+    if name not in fns:
+        raise Undecided(f'function {name} not found in _fjcore.c')
+    nm = NativeModel(w, flat=flat)
+    ex = CExec(Linear(fns[name]), name=f'{name}[w{w},{"flat" if flat else "paged"}]')
+    nm.install(ex, ('flat_seg_contains', 'mem_get_page'))
+    st = nm.st0.fork()
+    for c in nm.rep(st):
+        st.assume(c)
+    a_in, v_in = z3.BitVec('api_word_address', 64), z3.BitVec('api_value', 64)
+
+    def parse(e, s0, args, node):
+        fail = s0.fork()
+        fail.M['pyerr'] = z3.BoolVal(True)
+        fail.path.append('PyArg_ParseTuple:fail')
+        yield (fail, i32(0))
+        ok = s0.fork()
+        outs = [x for x in args[2:]]
+        vals = [a_in, v_in][: len(outs)]
+        for p, val in zip(outs, vals):
+            if not (isinstance(p, Ptr) and isinstance(p.where, tuple) and p.where[0] == 'local'):
+                raise Undecided(f'{name}: PyArg_ParseTuple out-parameter is not the address of a local')
+            ok.vars[p.where[1]] = val
+        ok.ghost['parsed'] = len(outs)
+        yield (ok, i32(1))
+
+    def from_ull(e, s0, args, node):
+        fail = s0.fork()
+        fail.M['pyerr'] = z3.BoolVal(True)
+        yield (fail, NULL)
+        ok = s0.fork()
+        ok.ghost['returned_int'] = args[0]
+        yield (ok, Ptr('pyobj', 'new-int'))
+
+    ex.contracts['PyArg_ParseTuple'] = ex.contracts['_PyArg_ParseTuple_SizeT'] = parse
+    ex.contracts['PyLong_FromUnsignedLongLong'] = from_ull
+    ex.contracts['Py_INCREF'] = ex.contracts['_Py_INCREF'] = lambda e, s0, args, node: iter([(s0, None)])
+    st.vars['args'] = Ptr('pyobj', 'args')
+    extra: List[Obl] = [Obl(f'{ex.name}:cover.requires', list(st.pc), None, 'cover')]
+    outs = ex.run(st, 0, stop=set())
+    x = z3.BitVec('x_other', 64)
+    inV = z3.Select(nm.V, a_in)
+    is_set = name == 'Memory_set_word'
+    PB, PM = u64(PAGE_BITS), u64((1 << PAGE_BITS) - 1)
+
+    def dev(s0, a):
+        """the device's view of word a: the program-visible word inside the segments, a page-backed word outside
+        (the same in every storage mode - the flat array's filler is never visible to a device)"""
+        paged = z3.Select(z3.Select(s0.M['pg_words'], z3.LShR(a, PB)), a & PM)
+        return z3.If(z3.And(nm.in_flat(s0, a), z3.Select(nm.V, a)), z3.Select(s0.M['flat'], a), paged)
+
+    for i, (sb, where) in enumerate(outs):
+        if where[0] != 'return':
+            raise Undecided(f'{name}: path ended at label {where[1]}')
+        tag = f'{ex.name}:path{i}'
+        ret = where[1]
+        ret_null = isinstance(ret, Ptr) and ret.null is True or ret is NULL
+        extra.append(Obl(f'{tag}.cover', list(sb.pc), None, 'cover'))
+        for nm_, c in nm.rep_changed(st, sb):
+            extra.append(Obl(f'{tag}.Rep_preserved.{nm_}', list(sb.pc), c))
+        if ret_null:
+            extra.append(Obl(f'{tag}.NULL_only_with_a_python_error_and_memory_unchanged', list(sb.pc), z3.And(sb.M['pyerr'], z3.ForAll([x], nm.absM(sb, x) == nm.absM(st, x)))))
+            continue
+        extra.append(Obl(f'{tag}.success_without_pending_error', list(sb.pc), z3.Not(sb.M['pyerr'])))
+        if is_set:
+            extra.append(Obl(f'{tag}.in_segment_write_is_the_program_visible_word', list(sb.pc) + [inV], nm.absM(sb, a_in) == (v_in & u64(nm.mask))))
+            extra.append(Obl(f'{tag}.no_other_word_changes', list(sb.pc), z3.ForAll([x], z3.Implies(x != a_in, nm.absM(sb, x) == nm.absM(st, x)))))
+            extra.append(Obl(f'{tag}.device_view_after_write', list(sb.pc), z3.And(dev(sb, a_in) == (v_in & u64(nm.mask)), z3.ForAll([x], z3.Implies(x != a_in, dev(sb, x) == dev(st, x))))))
+            extra.append(Obl(f'{tag}.out_of_segment_write_leaves_every_program_visible_word', list(sb.pc) + [z3.Not(inV)], z3.ForAll([x], z3.Implies(z3.Select(nm.V, x), nm.absM(sb, x) == nm.absM(st, x)))))
+        else:
+            if 'returned_int' not in sb.ghost:
+                extra.append(Obl(f'{tag}.returns_a_new_int', list(sb.pc), z3.BoolVal(False)))
+                continue
+            extra.append(Obl(f'{tag}.in_segment_read_is_the_program_visible_word', list(sb.pc) + [inV], sb.ghost['returned_int'] == nm.absM(st, a_in)))
+            extra.append(Obl(f'{tag}.read_returns_the_device_view_in_every_storage_mode', list(sb.pc), sb.ghost['returned_int'] == dev(st, a_in)))
+            extra.append(Obl(f'{tag}.read_changes_no_word', list(sb.pc), z3.ForAll([x], nm.absM(sb, x) == nm.absM(st, x))))
+    if not outs:
+        raise Undecided(f'{name}: no paths')
+    extra.append(Obl(f'{ex.name}:canary', list(st.pc), None, 'canary'))
+    return finish_unit(_Unit(ex), extra)
 
 
 def unit_rectangle() -> Dict[str, Any]:
@@ -371,13 +512,18 @@ def body(tier: str, seed: int) -> int:
     rep = Report(PROP, 'quick' if tier.startswith('replay') else tier, seed, 'proof', f'./check {PROP} --tier {tier}')
     DM, SC, X = _mods()
     jobs: List[tuple] = [(unit_packed_byte, (w,)) for w in (8, 16, 32, 64)] + [(unit_reader_adapter, (w,)) for w in (16, 64)] + [(unit_rectangle, ()), (unit_framing, ())]
+    th = tier == 'thorough'
+    native = [(32, True), (64, False)] if not th else [(w, fl) for w in (8, 16, 32, 64) for fl in (True, False)]
+    jobs += [(unit_native_accessor, (nm, w, fl)) for nm in ('Memory_get_word', 'Memory_set_word') for w, fl in native]
+    jobs += [(unit_native_adapter, (w,)) for w in (16, 32, 64)]
     run_and_discharge(rep, jobs)
-    for f in (DM.DeviceMemory.read_data_byte, DM.DeviceMemory.write_data_byte, DM.ReaderDeviceMemory.read_word, DM.ReaderDeviceMemory.write_word, SC.InMemoryScreen._update_rectangle, SC.InMemoryScreen._command_length):
+    for f in (DM.DeviceMemory.read_data_byte, DM.DeviceMemory.write_data_byte, DM.ReaderDeviceMemory.read_word, DM.ReaderDeviceMemory.write_word, DM.NativeDeviceMemory.read_word, DM.NativeDeviceMemory.write_word, SC.InMemoryScreen._update_rectangle, SC.InMemoryScreen._command_length):
         rep.add_function(f.__module__, f.__qualname__, Engine.func_lines(f))
-    rep.assume('[B only] NativeDeviceMemory + _fjcore Memory_get_word / Memory_set_word (flat-vs-page routing), InMemoryScreen._execute_command / _present / _set_palette / _update_screen: exercised on every engine and on random command streams')
+    rep.add_function('flipjump/interpreter/_fjcore.c', 'Memory_get_word, Memory_set_word', '', f'from any state satisfying Rep; instantiations (width, flat storage) {native}; callees by contract: flat_seg_contains, mem_get_page [A]')
+    rep.assume('[A] PyArg_ParseTuple("K"/"KK") fails with an exception set or stores arbitrary 64-bit values in its out-parameters; PyLong_FromUnsignedLongLong returns a new int of that value or NULL with an exception set; mem_get_page as in C01/C07')
+    rep.assume('[B only] InMemoryScreen._execute_command / _present / _set_palette / _update_screen and Memory_get_words/set_words (bulk load): exercised on every engine and on random command streams')
     rep.assume('same frames on every engine = C07 (same memory) + these adapter contracts')
     rep.trust('pyvc symbolic executor; z3 / cvc5')
-    th = tier == 'thorough'
     isolated.run(rep, 'devmem', 2500 if th else 200, seed)
     bounded_screen(rep, tier, seed)
     return rep.finish()
